@@ -145,7 +145,10 @@ class G(object):
                 out.append(("comment", " flow "))
             elif r < 0.96:
                 out.append(("elem", gen.SVG_NS, "svg", [], [("elem", gen.SVG_NS, "g", [], [("elem", gen.SVG_NS, "path", [(None, "d", "M0 0")], [])]),
-                                                           ("elem", gen.SVG_NS, "title", [], [("text", "t<")])]))
+                                                           ("elem", gen.SVG_NS, "title", [], [("text", "t<")])] +
+                            # SVG elements whose canonical names are mixed-case (adjusted by the parser from the lower-cased tag)
+                            ([("elem", gen.SVG_NS, self.rng.choice(["linearGradient", "clipPath", "radialGradient", "textPath", "feBlend"]),
+                               [(None, "id", "m")], [("elem", gen.SVG_NS, "rect", [(None, "width", "1")], [])])] if self.rng.random() < 0.5 else [])))
             else:
                 out += self.phrasing(depth + 1)
         return self.norm(out)
